@@ -593,6 +593,9 @@ func (tb *TB) load(x *ssa.UnOp) *Term {
 				return ft
 			}
 		}
+		if d := tb.p.derivedField(structTypeName(a.X.Type()), fieldName(a.X.Type(), a.Field)); d != nil {
+			return instantiateDerived(d, base)
+		}
 		t := mk("Field", fieldName(a.X.Type(), a.Field), x, base)
 		if tb.fieldUnstable(a) {
 			id, ok := tb.loadID[x]
@@ -1164,6 +1167,9 @@ func (tb *TB) alloc(al *ssa.Alloc) *Term {
 			sts := fields[i]
 			if len(sts) == 0 {
 				continue
+			}
+			if tb.p.derivedField(typeString(al.Type().(*types.Pointer).Elem()), st.Field(i).Name()) != nil {
+				continue // a cache of the other fields: not part of the value's definition
 			}
 			var val *Term
 			if len(sts) == 1 {
